@@ -223,3 +223,88 @@ Fixpoint deliveries (os : list out) : list (bytes * N * N) :=
   | ODeliver p e s :: os' => (p, e, s) :: deliveries os'
   | _ :: os' => deliveries os'
   end.
+
+(* ---- Early application data (conn.go handleApplicationDataRecord / parkEarlyApplicationData /
+   takeEarlyApplicationData / Read).  A payload accepted by the receive path before the LOCAL handshake
+   is complete is parked (at most [max_early]); Read, which only returns once the handshake is complete,
+   hands out the parked payloads first and then what the read loop passes on.  The receive step of a
+   connection is [recv_est (k_est k)]: the refusal of unprotected (epoch 0) application data sits in
+   [dispatch] and does not depend on the handshake state. *)
+Definition max_early : nat := 100.
+
+Record conn := {
+  k_rs : rstate;
+  k_est : bool;               (* local handshake complete *)
+  k_early : list bytes;       (* Conn.earlyApplicationData *)
+  k_chan : list bytes         (* payloads handed to Read through Conn.decrypted, oldest first *)
+}.
+
+Inductive cop :=
+| KArrive (w : wire)          (* a record read from the socket *)
+| KOp (o : op)                (* InitCipher / Drain of the record layer *)
+| KEstablish                  (* the local handshake completes *)
+| KRead.                      (* the application calls Read *)
+
+Definition payloads (os : list out) : list bytes := map (fun d => fst (fst d)) (deliveries os).
+
+(* what handleApplicationDataRecord does with the payloads the receive step accepted *)
+Definition accept_payloads (k : conn) (s' : rstate) (ps : list bytes) : conn :=
+  if k_est k
+  then {| k_rs := s'; k_est := true; k_early := k_early k; k_chan := k_chan k ++ ps |}
+  else {| k_rs := s'; k_est := false;
+          k_early := k_early k ++ firstn (max_early - length (k_early k)) ps; k_chan := k_chan k |}.
+
+(* [rcv] = the receive step of the record layer, a parameter so that variants of the guard can be compared *)
+Definition cstep_with (rcv : bool -> nat -> bool -> rstate -> wire -> rstate * list out)
+           (W : nat) (k : conn) (o : cop) : conn * list bytes :=
+  match o with
+  | KArrive w => let '(s', os) := rcv (k_est k) W true (k_rs k) w in (accept_payloads k s' (payloads os), [])
+  | KOp (Arrive w) => let '(s', os) := rcv (k_est k) W true (k_rs k) w in (accept_payloads k s' (payloads os), [])
+  | KOp o' => let '(s', os) := step W (k_rs k) o' in (accept_payloads k s' (payloads os), [])
+  | KEstablish => ({| k_rs := k_rs k; k_est := true; k_early := k_early k; k_chan := k_chan k |}, [])
+  | KRead =>
+      if negb (k_est k) then (k, []) else
+      match k_early k with
+      | p :: rest => ({| k_rs := k_rs k; k_est := true; k_early := rest; k_chan := k_chan k |}, [p])
+      | [] => match k_chan k with
+              | p :: rest => ({| k_rs := k_rs k; k_est := true; k_early := []; k_chan := rest |}, [p])
+              | [] => (k, [])
+              end
+      end
+  end.
+
+Definition cstep := cstep_with recv_est.
+
+Fixpoint crun_with rcv (W : nat) (k : conn) (ops : list cop) : conn * list bytes :=
+  match ops with
+  | [] => (k, [])
+  | o :: ops' =>
+      let '(k1, r1) := cstep_with rcv W k o in
+      let '(k2, r2) := crun_with rcv W k1 ops' in (k2, r1 ++ r2)
+  end.
+
+Definition crun := crun_with recv_est.
+
+Definition cinit (cid : bytes) (rrc : bool) : conn :=
+  {| k_rs := rinit cid rrc; k_est := false; k_early := []; k_chan := [] |}.
+
+(* the body of an unprotected record taken as application data *)
+Definition unprotected_app (w : wire) : option bytes :=
+  if w_epoch w =? 0 then match w_clear w with CApp p => Some p | _ => None end else None.
+
+(* VARIANT of the receive step in which the refusal of unprotected application data is conditioned on
+   the handshake being complete (NOT what conn.go does): while the handshake runs such a record goes
+   the way of every accepted application record - markPacketAsValid (no slot for epoch 0), then
+   parkEarlyApplicationData. *)
+Definition recv_guard_if_established (est : bool) (W : nat) (lease : bool) (s : rstate) (w : wire)
+  : rstate * list out :=
+  match unprotected_app w with
+  | Some p =>
+      if est then recv_est est W lease s w
+      else if r_closed s || negb (check maxseq48 (get_win W 0 (r_wins s)) (w_seq w)) then (s, [])
+      else (s, [ODeliver p 0 (w_seq w)])
+  | None => recv_est est W lease s w
+  end.
+
+(* every payload a connection holds for Read: parked or in the channel *)
+Definition held (k : conn) : list bytes := k_early k ++ k_chan k.
